@@ -655,3 +655,61 @@ def mask_shift(rng):
                 a.emit(sp, "SLOAD", ("push", (1 << k1) - 1, None), "AND", "OR", sp, "SSTORE")
         a.emit("STOP")
     return a.assemble(), feats
+
+
+def growers(rng):
+    """Loops and straight-line code that repeatedly square, add, hash or mask a running value."""
+    a = evm.Asm()
+    feats = set()
+    style = rng.choice(["loop", "loop", "straight", "storage-loop", "memory-loop", "copy"])
+    feats.add("style:" + style)
+
+    def step():
+        op = rng.choice(["square", "add-self", "hash", "mask", "sload-key", "addmod", "exp", "not", "byte"])
+        feats.add("op:" + op)
+        if op == "square":
+            a.emit("DUP1", "MUL")
+        elif op == "add-self":
+            a.emit("DUP1", "ADD")
+        elif op == "hash":
+            a.emit(0, "MSTORE", 0x20, 0, "SHA3")
+        elif op == "mask":
+            a.emit(("push", (1 << rng.choice([8, 160, 255])) - 1, None), "AND")
+        elif op == "sload-key":
+            a.emit("SLOAD")
+        elif op == "addmod":
+            a.emit("DUP1", "DUP1", "ADDMOD")
+        elif op == "exp":
+            a.emit("DUP1", "EXP")
+        elif op == "not":
+            a.emit("NOT")
+        else:
+            a.emit(rng.randrange(0, 32), "BYTE")
+
+    a.emit(rng.choice(["CALLVALUE", "CALLER", 4, 1]))
+    if style in ("loop", "storage-loop", "memory-loop"):
+        a.label("L")
+        for _ in range(rng.randint(1, 4)):
+            step()
+        if style == "storage-loop":
+            a.emit("DUP1", rng.randrange(0, 3), "SSTORE")
+            if rng.random() < 0.5:
+                a.emit(rng.randrange(0, 3), "SLOAD", "ADD")
+        if style == "memory-loop":
+            a.emit("DUP1", 32 * rng.randrange(0, 3), "MSTORE", 32 * rng.randrange(0, 3), "MLOAD", "OR")
+        a.emit(rng.choice(["CALLVALUE", "DUP1", ("push", 1, 1)]))
+        a.jumpi("L")
+        a.emit(rng.choice([["DUP1", 0, "SSTORE"], ["POP"], [0, "MSTORE", 0x20, 0, "RETURN"], [0, 0, "LOG1"]]))
+        a.emit("STOP")
+    elif style == "copy":
+        a.emit(rng.choice([32, 64, 320, 3000]), rng.choice([0, 4]), 0, rng.choice(["CALLDATACOPY", "CODECOPY"]))
+        a.emit(rng.choice([64, 320]), 0, "SHA3")
+        for _ in range(rng.randint(1, 6)):
+            step()
+        a.emit(0, "SSTORE", "STOP")
+    else:
+        for _ in range(rng.randint(3, 30)):
+            step()
+        a.emit(rng.choice([["DUP1", 1, "SSTORE"], [0, "MSTORE"], [0, "SLOAD", "ADD", 2, "SSTORE"]]))
+        a.emit("STOP")
+    return a.assemble(), feats
